@@ -9,6 +9,7 @@ import copy
 import json
 import logging
 import os
+import random
 import shutil
 import sys
 import tempfile
@@ -25,6 +26,19 @@ import gen_archive                                     # noqa: E402  translator 
 
 logging.disable(logging.CRITICAL)
 warnings.filterwarnings('ignore')
+
+
+def slit_utf8(s):
+    """Gallina string literal of a Python str: Coq reads the UTF-8 bytes of the source as the characters of the
+    [string], so a text of n UTF-8 bytes is a Coq string of length n and equality is byte equality (what a DBF cell,
+    a pandas cell or a KML Data element must give back).  Control characters have no literal form."""
+    assert all(ord(ch) >= 32 and ord(ch) != 127 for ch in s), s
+    return '"' + s.replace('"', '""') + '"'
+
+
+# the literal builders shared with C14 (jlit / dlit / obs_shape) look their string writer up in c14's namespace: in THIS
+# process (the C20 check only) it is the UTF-8 one; c14.py itself is untouched and keeps its ASCII-only writer
+G.slit = slit_utf8
 
 from geostructures import (Coordinate, GeoBox, GeoCircle, GeoLineString, GeoPoint, GeoPolygon,   # noqa: E402
                            MultiGeoLineString, MultiGeoPoint, MultiGeoPolygon)
@@ -147,13 +161,107 @@ KEYPOOL = [('s', 'str'), ('name', 'str'), ('i', 'int'), ('count', 'int'), ('b', 
            ('max-speed', 'int'), ('2nd_name', 'str'), ('_note', 'str'), ('class', 'str')]
 
 
+# ---- text that is not ASCII (seeded change C20-G).  Mechanism class: anything in the export glue that measures, pads, cuts,
+# escapes or compares TEXT in one unit (characters, code units) while the codec stores another (UTF-8 bytes in a fixed-width
+# DBF column; XML text; pandas objects) - column widths, truncation, normalisation, case folding, stripping.  The claimed
+# domain stays what the unchanged writer supports: at most TEXT_MAX_BYTES UTF-8 bytes (pyshp's default 'C' column of 50
+# bytes, which to_shapefile uses), no surrounding white space (pyshp and fastkml strip it, Unicode blanks included), no
+# control characters.
+TEXT_MAX_BYTES = 50
+ALPHA = {1: list('abcXYZ09-_/. '), 2: list('ãéøÆÎßñüŁ'), 3: list('–€東京∑กあ‰'), 4: list('😀𝔘𝄞🗺'),
+         'comb': ['e\u0301', 'a\u030a', 'n\u0303', 'o\u0308\u0304']}     # base letter + combining mark(s)
+NONASCII_FIXED = ['São Paulo', 'Ærø–Fyn', 'Île-de-France', 'cafés', '東京都', 'Zürich–Genève', 'a😀b', 'Ångström'.replace('Å', 'A\u030a'),
+                  'é', '東', '😀', 'ß' * 25, 'a' + 'é' * 24 + 'b', '京' * 16 + 'ab', '😀' * 12 + 'zz']      # the last four: exactly 50 bytes
+
+
+def nbytes(t):
+    return len(t.encode('utf-8'))
+
+
+def rand_text(rng, nchars=None, widths=(1, 2, 3, 4, 'comb'), maxbytes=TEXT_MAX_BYTES):
+    """a text of about nchars units drawn from the given UTF-8 width classes, <= maxbytes bytes, no surrounding blanks"""
+    nchars = nchars or rng.randint(1, 14)
+    out = ''
+    for _ in range(nchars):
+        ch = rng.choice(ALPHA[rng.choice(widths)])
+        if nbytes(out + ch) > maxbytes:
+            break
+        out += ch
+    out = out.strip() or rng.choice(ALPHA[2])
+    return out
+
+
+def text_column(rng, n, pattern):
+    """n values of ONE text column of one layer.  The patterns vary how the byte length of the values relates to their
+    character count and to the other values of the same column (the unit a writer could size the column by)."""
+    if pattern == 'mixed':                # any widths, any lengths
+        return [rand_text(rng) for _ in range(n)]
+    if pattern == 'ascii-longest':        # the longest value (in characters) is ASCII; shorter ones are longer in BYTES
+        L = rng.randint(4, 16)
+        col = [''.join(rng.choice('abcdefgh') for _ in range(L))]
+        while len(col) < max(n, 2):
+            m = rng.randint(max(2, (L + 2) // 3), L - 1)
+            t = rand_text(rng, m, widths=(rng.choice([2, 3, 4]),))
+            col.append(t if nbytes(t) > L and len(t) < L else rand_text(rng, L - 1, widths=(4,)))
+        rng.shuffle(col)
+        return col[:max(n, 2)]
+    if pattern == 'same-chars':           # equal character counts, different byte counts (excess 0, 1, 2, ... per value)
+        L = rng.randint(1, 10)
+        col = []
+        for j in range(n):
+            k = rng.randint(0, L)         # how many of the L characters are multi-byte
+            cs = [rng.choice(ALPHA[rng.choice([2, 3, 4])]) for _ in range(k)] + [rng.choice('abcxyz') for _ in range(L - k)]
+            rng.shuffle(cs)
+            col.append(''.join(cs))
+        return col
+    if pattern == 'single':               # one character of 2, 3 or 4 bytes, or one combining sequence
+        return [rng.choice(ALPHA[rng.choice([2, 3, 4, 'comb'])]) for _ in range(n)]
+    if pattern == 'at-limit':             # exactly TEXT_MAX_BYTES bytes, the multi-byte characters ending on the limit
+        col = []
+        for _ in range(n):
+            w = rng.choice([2, 3, 4])
+            k = rng.randint(1, TEXT_MAX_BYTES // w)
+            body = ''.join(rng.choice(ALPHA[w]) for _ in range(k))
+            pad = TEXT_MAX_BYTES - nbytes(body)
+            cut = rng.randint(0, pad)
+            col.append('x' * cut + body + 'y' * (pad - cut) if rng.random() < .7 else body)
+        return col
+    if pattern == 'with-empty':           # '' next to non-ASCII values
+        return [('' if j % 2 == 0 else rand_text(rng, widths=(2, 3, 4, 'comb'))) for j in range(n)]
+    if pattern == 'fixed':
+        return [rng.choice(NONASCII_FIXED) for _ in range(n)]
+    raise KeyError(pattern)
+
+
+TEXT_PATTERNS = ['mixed', 'ascii-longest', 'same-chars', 'single', 'at-limit', 'with-empty', 'fixed']
+TEXT_FAMILY_KINDS = {'points': ['point'], 'multipoints': ['mpoint'], 'lines': ['line', 'mline'],
+                     'shapes': ['poly', 'mpoly', 'box', 'circle'], 'all': None}
+
+
+def text_collection(rng, family, pattern, z=False, track=False):
+    """specs of one collection whose string properties follow `pattern`, column by column and layer by layer"""
+    kinds = TEXT_FAMILY_KINDS[family] or (KINDSZ if z else KINDS2D)
+    if z:
+        kinds = [k for k in kinds if k in KINDSZ] or ['poly']
+    n = rng.randint(1, 5)
+    keys = ['label'] + rng.sample(['name', 'gr\u00f6\u00dfe', '_note'], rng.randint(0, 2))     # one key is itself not ASCII (7 bytes)
+    cols = {k: text_column(rng, n, pattern if j == 0 else rng.choice(TEXT_PATTERNS)) for j, k in enumerate(keys)}
+    out = []
+    for i in range(n):
+        sp = rand_member(rng, rng.choice(kinds), z)
+        sp['dt'] = rand_dt(rng, need=track)
+        sp['props'] = {k: cols[k][i] for k in keys if k == 'label' or rng.random() < .8}
+        out.append(sp)
+    return out
+
+
 def rand_props(rng, keyset, allow_missing=True):
     d = {}
     for k, t in keyset:
         if allow_missing and rng.random() < 0.3:
             continue
         if t == 'str':
-            d[k] = rng.choice(STR_VALUES)
+            d[k] = rng.choice(STR_VALUES) if rng.random() < .7 else (rng.choice(NONASCII_FIXED) if rng.random() < .5 else rand_text(rng))
         elif t == 'int':
             d[k] = rng.choice([0, 1, -7, 42, 123456789])
         elif t == 'bool':
@@ -398,8 +506,9 @@ def is_missing(v):
     return v is None or v == '' or (isinstance(v, float) and v != v)
 
 
-def compare_member(path, orig, back, group_keys, folder=None):
-    """-> list of (clause, signature-or-None, text)"""
+def compare_member(path, orig, back, group_keys, folder=None, props=None):
+    """-> list of (clause, signature-or-None, text).  props: the property dictionary the member was BUILT from (its spec);
+    the member's own dictionary is compared with it separately after the exports"""
     out = []
     g = same_geometry(orig, back)
     if g:
@@ -410,7 +519,7 @@ def compare_member(path, orig, back, group_keys, folder=None):
         out.append(('geometry', sig, g))
     if orig.dt != back.dt:
         out.append(('time bounds', None, f'{orig.dt} came back as {back.dt}'))
-    op, bp = orig._properties, dict(back._properties)
+    op, bp = (orig._properties if props is None else props), dict(back._properties)
     for k, v in op.items():
         if k not in bp:
             out.append(('properties', 'kml_falsy_property_dropped' if path == 'kml' and not v else None, f'key {k!r} lost'))
@@ -454,12 +563,17 @@ def shapefile_roundtrip(coll, cls):
         for nm in names:
             if nm.endswith('.shp'):
                 r = shapefile.Reader(os.path.join(zp, nm))
-                fields = [f for f in r.fields if f[0] != 'DeletionFlag']
-                rows = []
-                for sh, rec in zip(r.shapes(), r.records()):
-                    rows.append((sh, copy.deepcopy(sh.__geo_interface__), rec.as_dict()))
-                layers[nm[:-4]] = (fields, rows)
-                r.close()
+                try:
+                    fields = [f for f in r.fields if f[0] != 'DeletionFlag']
+                    rows = []
+                    for sh, rec in zip(r.shapes(), r.records()):
+                        rows.append((sh, copy.deepcopy(sh.__geo_interface__), rec.as_dict()))
+                    layers[nm[:-4]] = (fields, rows)
+                except (UnicodeError, ValueError, shapefile.ShapefileException) as ex:
+                    # the codec cannot read what the writer stored (e.g. a text cell cut inside a UTF-8 character)
+                    layers[nm[:-4]] = ('unreadable', type(ex).__name__ + ': ' + str(ex)[:160])
+                finally:
+                    r.close()
         return names, back, layers
     finally:
         shutil.rmtree(d, ignore_errors=True)
@@ -523,6 +637,20 @@ def main():
         {'kind': 'point', 'c': (1.0, 2.0, 7.5), 'dt': ('i', 5, 0), 'props': {'i': 3}},
         {'kind': 'mline', 'ls': [zify([(0.0, 0.0, None), (1.0, 1.0, None)], 1.0), zify([(3.0, 3.0, None), (4.0, 5.0, None)], 9.0)], 'dt': ('i', 5, 0), 'props': {}},
     ]})
+
+    # text that is not ASCII: every column pattern x every geometry-family layer (+ mixed collections, Z, Tracks)
+    for fi, family in enumerate(['points', 'multipoints', 'lines', 'shapes', 'all', 'all']):
+        for pi_, pattern in enumerate(TEXT_PATTERNS):
+            for rep_ in range(1 if quick else 8):
+                z = family == 'all' and (fi + pi_ + rep_) % 3 == 0
+                track = (fi + pi_ + rep_) % 5 == 4
+                colls.append({'specs': text_collection(rng, family, pattern, z=z, track=track), 'track': track, 'z': z,
+                              'naive': (fi + pi_) % 6 == 1, 'text': pattern})
+    # fixed: the labels of seeded change C20-G's report and one value per UTF-8 width, one layer each
+    lab = lambda kind, v, **kw: dict(rand_member(random.Random(7), kind, False), dt=None, props=dict({'label': v}, **kw))   # noqa: E731
+    colls.append({'track': False, 'z': False, 'naive': False, 'text': 'fixed', 'specs': [
+        lab('point', 'S\u00e3o Paulo'), lab('point', '\u00c6r\u00f8\u2013Fyn'), lab('mpoly', '\u00cele-de-France'), lab('poly', 'abc'),
+        lab('line', 'caf\u00e9s', name='\u6771\u4eac'), lab('mline', 'abcdefghij', name='\U0001f600'), lab('mpoint', 'e\u0301')]})
 
     # deterministic replays of the known findings (fixed inputs; each prints its KNOWN-FINDING line only while it reproduces)
     pt = lambda x, **kw: dict({'kind': 'point', 'c': (x, 2.0, None), 'dt': None, 'props': {}}, **kw)     # noqa: E731
@@ -622,6 +750,11 @@ def main():
                     flagged.append((m, 'order', None, f'family {f}: read back in layer order {ids}'))
                 if not idxs:
                     continue
+                if f in layers and layers[f][0] == 'unreadable':
+                    flagged.append((dict(m, layer=f, members=idxs), 'properties', None,
+                                    f'layer {f} was written but cannot be read back by the codec: {layers[f][1]}'))
+                    pos += len(idxs)
+                    continue
                 if f not in layers or len(layers[f][1]) != len(idxs):
                     flagged.append((m, 'order', None, f'layer {f} missing or of the wrong size'))
                     pos += len(idxs)
@@ -647,7 +780,7 @@ def main():
                     res = ('Ok', layer_back[j]) if j < len(layer_back) else ('Err', 'OtherError')
                     members.append(f'(mkmo {lits[i][0]} {pshape_lit(sh)} {gi_lit(gi)} {dlit(rec)} {res_shape_lit(res)})')
                     if res[0] == 'Ok':
-                        known_or_flag(dict(m, member=i, layer=f), compare_member('shp', objs[i], res[1], gkeys))
+                        known_or_flag(dict(m, member=i, layer=f), compare_member('shp', objs[i], res[1], gkeys, props=specs[i].get('props') or {}))
                 add(f'KLayer {outer_lit} [] {listlit([G.slit(k) for k in keys])} {listlit(types)} {listlit(members)}',
                     dict(m, layer=f, members=idxs))
                 nontrivial.add(('layer', cn, f))
@@ -689,7 +822,7 @@ def main():
                     flagged.append((m, 'order', None, 'row count differs'))
                 elif not c['track'] or True:
                     for i, (o, b) in enumerate(zip(objs, got)):
-                        known_or_flag(dict(m, member=i), compare_member('gpd', o, b, all_keys))
+                        known_or_flag(dict(m, member=i), compare_member('gpd', o, b, all_keys, props=specs[i].get('props') or {}))
 
         # ---------------- KML (string properties only are supported by fastkml; the rest is finding D45)
         m = dict(base, op='kml')
@@ -717,7 +850,7 @@ def main():
                     flagged.append((m, 'order', None, 'placemark count differs'))
                 else:
                     for i, (o, b) in enumerate(zip(objs, got)):
-                        known_or_flag(dict(m, member=i), compare_member('kml', o, b, all_keys, folder_name))
+                        known_or_flag(dict(m, member=i), compare_member('kml', o, b, all_keys, folder_name, props=specs[i].get('props') or {}))
             for i, (o, pm) in enumerate(zip(objs, pms)):
                 gi = tolist(copy.deepcopy(pm.geometry.__geo_interface__))
                 data = {e.name: e.value for e in (pm.extended_data.elements if pm.extended_data else [])}
@@ -725,6 +858,33 @@ def main():
                 add(f'KKml {G.tablit(lits[i][1], enc)} [] {G.slit(folder_name)} {lits[i][0]} '
                     f'(KRead (mkpm {G.jlit(gi, enc)} {ktime_lit(pm.times)} {dlit(data)}) {res_shape_lit(one)})', dict(m, member=i))
             nontrivial.add(('kml', cn))
+
+        # the exports must leave the members as they were built (the comparisons above are against the specs)
+        for i, (sp, o) in enumerate(zip(specs, objs)):
+            if dict(o._properties) != (sp.get('props') or {}):
+                flagged.append((dict(base, op='shapefile', member=i), 'properties', None,
+                                f'after the exports the member holds {o._properties!r}, built with {sp.get("props")!r}'))
+        if 'text' in c:
+            ck.count('text-collection:' + c['text'])
+            for sp in specs:
+                for v in (sp.get('props') or {}).values():
+                    if isinstance(v, str) and nbytes(v) > len(v):
+                        nontrivial.add(('text', v))
+                        ck.count(f'text value with {min(nbytes(v) - len(v), 10)}{"+" if nbytes(v) - len(v) >= 10 else ""} bytes more than characters')
+
+    # ---- observation only (never a violation, never a KNOWN-FINDING line): text beyond the 50-byte column that
+    # to_shapefile declares (outside the claimed domain).  Counted so that the evidence shows what the tree does there:
+    # cut at 50 bytes; unreadable layer when the cut falls inside a character; 254 is the DBF format's own limit.
+    for label, v in (('51 bytes, cut inside a character', 'a' + '\u00e9' * 25), ('52 bytes, cut between characters', '\u00e9' * 26),
+                     ('51 ASCII bytes', 'a' * 51), ('254 ASCII bytes', 'a' * 254), ('300 ASCII bytes', 'a' * 300)):
+        o = GeoPoint(Coordinate(1.0, 2.0), properties={'label': v})
+        _, back, _ = shapefile_roundtrip(FeatureCollection([o]), FeatureCollection)
+        if back[0] != 'Ok':
+            res = 'layer unreadable (' + str(back[1])[:40] + ')'
+        else:
+            w = back[1].geoshapes[0]._properties.get('label')
+            res = 'kept' if w == v else f'cut to {nbytes(w)} bytes' if isinstance(w, str) and v.startswith(w) else 'changed'
+        ck.count(f'observed beyond the 50-byte column: {label} -> {res}')
 
     ck.cov['evaluations'] = len(cases)
     ck.cov['distinct_nontrivial'] = len(nontrivial)
@@ -766,15 +926,20 @@ def main():
                    'microseconds; aware / naive}; properties string/int/bool/float with a uniform type per key and keys missing on '
                    'some members; with and without Z (uniform per collection, distinct per vertex); each really written to a zip '
                    'archive / frame / folder and read back; + dedicated collections with unique ids for the family order; '
-                   'fixed corpus with two holes + Z and multipolygon holes.  non-trivial = distinct (collection, layer | frame | folder | order)',
+                   'fixed corpus with two holes + Z and multipolygon holes; string properties that are not ASCII (column patterns: '
+                   'mixed widths, longest value ASCII while a shorter one is longer in bytes, equal character counts, single '
+                   'characters, exactly 50 bytes, empty next to non-ASCII) per geometry-family layer, through all three routes, '
+                   'compared with the specs.  non-trivial = distinct (collection, layer | frame | folder | order) + distinct text values with more bytes than characters',
               assumptions=['CONTRACT pyshp: what to_pyshp hands over is what is stored; __geo_interface__ = ESRI rule read sequentially (esri_gi); '
                            'shape.z in written order; DBF: names cut to 10, C/N(decimal 0)/L cells as dbf_cell_ref — checked on every case',
                            'CONTRACT pandas/shapely: cells as pd_cell_ref for the inferred column kind; WKT body and keyword as the '
                            "library's to_wkt (a MultiPoint comes back in the nested OGC form, which the reader accepts since repair D41) — checked on every case",
                            'CONTRACT fastkml/pygeoif: geo interface keeps type and coordinates, times and extended data unchanged — checked on every case',
                            'coordinates are multiples of 1e-7 degree in canonical range; polygons are valid (holes inside their shell, parts disjoint); '
-                           'non-zero ring areas; Z never 0 (D14) and uniform within a collection; field names <= 10 characters, text <= 50 '
-                           'characters without surrounding blanks; M values outside the property',
+                           'non-zero ring areas; Z never 0 (D14) and uniform within a collection; field names <= 10 UTF-8 bytes, text <= 50 '
+                           'UTF-8 bytes (the column width to_shapefile declares; ASCII and 2-, 3-, 4-byte characters and combining marks '
+                           'are generated, compared byte for byte) without surrounding white space and control characters; M values '
+                           'outside the property',
                            'datetime.isoformat/fromisoformat inverse (stdlib; observed)'])
 
 
